@@ -337,8 +337,8 @@ Lemma sim_open c tr c' o :
 Proof.
   unfold xopen. cbn [gc c_view]. destruct (ver1 (c_view c)) as [v0|] eqn:Ev; [|intros E U; inversion E; subst; congruence].
   rewrite (Hver _ _ Ev).
-  destruct (((if v0 =? 0 then u_latest cfg else v0) <? 1) || (u_latest cfg <? (if v0 =? 0 then u_latest cfg else v0)));
-    [intros E U; inversion E; subst; congruence|].
+  destruct (v0 =? 0); [apply sim_prog|].
+  destruct ((v0 <? 1) || (u_latest cfg <? v0)); [intros E U; inversion E; subst; congruence|].
   apply sim_prog.
 Qed.
 
@@ -421,9 +421,12 @@ Proof.
         eapply IH; eauto. }
       unfold xprocess, xopen in E. cbn [fresh_conn c_view] in E.
       destruct (version_s d) as [v0|]; [|inversion E].
-      destruct (((if v0 =? 0 then u_latest cfg else v0) <? 1) || (u_latest cfg <? (if v0 =? 0 then u_latest cfg else v0)));
-        [inversion E|].
-      destruct (run_prog (apply_s srcs) (fresh_conn d) (upgrades_from cfg (if v0 =? 0 then u_latest cfg else v0) ++ u_tail cfg))
+      destruct (v0 =? 0).
+      { destruct (run_prog (apply_s srcs) (fresh_conn d) (u_fresh cfg)) as [[tr0 c1] o1] eqn:Ep.
+        destruct o1; inversion E; subst.
+        eapply G3; [exact Ep| |exact Ei]. intros _. reflexivity. }
+      destruct ((v0 <? 1) || (u_latest cfg <? v0)); [inversion E|].
+      destruct (run_prog (apply_s srcs) (fresh_conn d) (upgrades_from cfg v0 ++ u_tail cfg))
         as [[tr0 c1] o1] eqn:Ep.
       destruct o1; inversion E; subst.
       eapply G3; [exact Ep| |exact Ei]. intros _. reflexivity. }
